@@ -77,6 +77,7 @@ def prove_identity(hyps, goal, limit_terms=200000):
                         if s not in subs:
                             subs[s] = _conv(rhs, table)
                         break
+        rest = []
         for a, b in goals:
             d = _conv(a, table) - _conv(b, table)
             for _ in range(4):
@@ -84,8 +85,38 @@ def prove_identity(hyps, goal, limit_terms=200000):
                 if d2 == d:
                     break
                 d = d2
-            if sympy.expand(d) != 0:
+            d = sympy.expand(d)
+            if d != 0:
+                rest.append(d)
+        if not rest:
+            return True
+        # ideal membership: the goal polynomial reduces to 0 modulo the polynomial equations among the hypotheses
+        # (d = sum q_i * (lhs_i - rhs_i)  =>  d == 0 whenever the hypotheses hold).  Sound; incomplete.
+        gens = []
+        syms = set().union(*[r.free_symbols for r in rest])
+        for h in hyps:
+            for a, b in _equations(h):
+                try:
+                    g = sympy.expand(_conv(a, table) - _conv(b, table))
+                except NotPoly:
+                    continue
+                if g != 0 and g.free_symbols & syms and len(gens) < 40:
+                    gens.append(g)
+        if not gens:
+            return False
+        allsyms = sorted(set().union(syms, *[g.free_symbols for g in gens]), key=str)
+        for d in rest:
+            try:
+                _, r = sympy.reduced(d, gens, *allsyms, order='grevlex')
+            except Exception:
                 return False
+            if sympy.expand(r) != 0:
+                try:
+                    G = sympy.groebner(gens, *allsyms, order='grevlex')
+                    if not G.contains(d):
+                        return False
+                except Exception:
+                    return False
         return True
     except NotPoly:
         return False
